@@ -243,7 +243,7 @@ func (d *driver) stop() {
 	}
 }
 
-// ask returns the answer, or ok=false when the driver died or stayed silent for 30 s.
+// ask returns the answer, or ok=false when the driver died or stayed silent for 15 s.
 func (d *driver) ask(req string) (string, bool) {
 	if d.cmd == nil {
 		if err := d.start(); err != nil {
@@ -262,7 +262,7 @@ func (d *driver) ask(req string) (string, bool) {
 			return "", false
 		}
 		return s, true
-	case <-time.After(30 * time.Second):
+	case <-time.After(15 * time.Second):
 		d.stop()
 		return "", false
 	}
@@ -588,6 +588,15 @@ func partialDefs() []string {
 	return out
 }
 
+func hasOp(ops []string, name string) bool {
+	for _, o := range ops {
+		if o == name {
+			return true
+		}
+	}
+	return false
+}
+
 func anyRejected(acc []bool) bool {
 	for _, a := range acc {
 		if !a {
@@ -663,7 +672,7 @@ func (a *agg) evaluate(f *lib.Flags, d *driver, j job, h *History, v *Verdict, o
 		switch {
 		case !allParse:
 			why = "a text does not pass the generic parser"
-		case j.amp:
+		case j.amp || hasOp(ops, "amplifier"):
 			// the compiled model mirrors the loops of the Go code on lists; the amplifiers are about the
 			// resources the Go side takes
 			why = "amplifier case (the model is not asked)"
